@@ -229,7 +229,7 @@ PROPS = {
                dict(bin="exec", args=["sub=mclose"], runs=80, single=True, thorough_scale=10, model_name="M11 Exec (one event machine per listener)", kinds=["close_before_processed", "close_callback_count", "panic"]),
                dict(bin="exec", args=["sub=reclose"], runs=60, single=True, thorough_scale=10, model_name="M11 Exec (end signal given before the graceful close: cancelAll / closeExpired / several closes)", kinds=["close_before_processed", "close_callback_count", "close_failed", "panic"]),
                # a listener removed earlier by a BOUNDED flush_and_cancel_executor that expired, then an unbounded close() while another listener is busy (after seeded C06-5); real clock
-               dict(bin="exec", args=["sub=mremove"], runs=24, model=False, single=True, thorough_scale=10, model_name="(oracle only: bounded individual removal that expires, then close; real clock)", kinds=["close_never_returned", "close_before_processed", "close_callback_count", "close_failed", "panic"])],
+               dict(bin="exec", args=["sub=mremove"], runs=24, single=True, thorough_scale=10, model_name="M11 Exec (one event machine per listener; bounded individual removal that expires, then close; real clock)", kinds=["close_never_returned", "close_before_processed", "close_callback_count", "close_failed", "panic"])],
     rule="random executor kind, limit 1-4, 0-6 events (sync / future / slow / failing items), close() called 1 ms after the sends (events buffered and / or in flight); `mclose`: the five queue-per-listener Multi kinds with 2-3 listeners (sequential futures executors) whose items take 0 / 3 / 10 ms, 1-12 events; `reclose`: sequential futures executor with 1-6 slow events and an unbounded close() issued after a bounded close that expired / after cancel_all_streams() / while another close() is waiting; DISTINCT by event log; NON-TRIVIAL if more than one event",
     trusted_base=TB_COMMON + ["tokio and futures 0.3 contracts as in C11"],
     assumptions=["the property is about closes with an unbounded timeout (bounded ones may give up; the model has them as closeExpired)"],
